@@ -60,9 +60,16 @@ Example C08_nonvacuous :
   written 1 {| sc_filter := Some (F_link 0); sc_skip := false; sc_src := Src_file |} (serialize f1_pkts) = f1_hdr 0.
 Proof. split; [exact f1_wf|]. split; vm_compute; reflexivity. Qed.
 
+(* the writer is the ONLY consumer of the packets the reader hands on when data is written: the analysis thread -- the other holder of a
+   receiver of that channel -- is started exactly when a check or a view is requested, and the writer exactly when none is (fact re-read
+   from `process` in fastpasta/src/lib.rs on every run; two consumers on one channel would each take a part of the batches) *)
+Theorem C08_single_consumer_source_shape : Gen.Facts.proto_single_data_consumer = true.
+Proof. exact eq_refl. Qed.
+
 Print Assumptions C08_exact.
 Print Assumptions C08_roundtrip.
 Print Assumptions C08_wellframed.
 Print Assumptions C08_idempotent.
 Print Assumptions C08_partition_count.
 Print Assumptions C08_filter_is_key_selection.
+Print Assumptions C08_single_consumer_source_shape.
